@@ -246,6 +246,9 @@ func (w *World) execCallCommon(fr *Frame, st *State, c *ssa.CallCommon, ins *ssa
 		}
 	}
 	sig := c.Signature()
+	if pre == nil && c.IsInvoke() && len(args) > 0 && args[0].Dyn == nil {
+		w.derefPoint(fr, st, itag(args[0].T), "method call on nil interface", pos)
+	}
 	ct, callee := w.resolveContract(fr, c, st)
 	fn, bindings, recv := w.calleeOf(fr, st, c, pre)
 	if recv != nil {
@@ -583,6 +586,9 @@ func (w *World) applyContract(fr *Frame, st *State, ct *Contract, names []string
 			if len(props) == 0 && w.topContract != nil {
 				props = w.topContract.Props
 			}
+			if w.safetyPreSkipped(ct, rq) {
+				continue
+			}
 			w.oblige("call.pre", fmt.Sprintf("call.%s.%d.pre.%s", label, ord, lbl), st.cond, w.skolemGoal(env, rq.Expr), rq.Star, props)
 		}
 	}
@@ -701,6 +707,9 @@ func (w *World) applyContract(fr *Frame, st *State, ct *Contract, names []string
 			props := rq.Props
 			if len(props) == 0 && w.topContract != nil {
 				props = w.topContract.Props
+			}
+			if w.safetyPreSkipped(base, rq) {
+				continue
 			}
 			w.oblige("call.pre", fmt.Sprintf("call.%s.%d.pre.own.%s", label, ord, lbl), pre.cond, w.skolemGoal(benvPre, rq.Expr), rq.Star, props)
 		}
@@ -1296,4 +1305,19 @@ func (w *World) execCopy(fr *Frame, st *State, c *ssa.CallCommon, d, s *Val) *Va
 	w.hset(st, key, store(E, sarr(d.T), na))
 	w.assumption("copy between overlapping slices is not modelled (source read before the call)")
 	return &Val{T: n, Typ: types.Typ[types.Int]}
+}
+
+// safetyPreSkipped: the helper preconditions of a callee verified under `opt safety full` (non-nil receivers and
+// arguments, well-formedness of the model) are what rules out its implicit panics. A caller that is itself under
+// `opt safety full` must establish them; for any other caller the absence of implicit panics is the standing
+// assumption, so they are not asked of it.
+func (w *World) safetyPreSkipped(ct *Contract, rq *Clause) bool {
+	if rq.Star || ct.Opts["safety"] != "full" {
+		return false
+	}
+	if w.topContract != nil && w.topContract.Opts["safety"] == "full" {
+		return false
+	}
+	w.assumption("implicit run-time panics (nil dereference, index, failed type assertion) do not occur in functions without 'opt safety on'")
+	return true
 }
